@@ -334,7 +334,7 @@ StreamExecutor<INSTRUMENTS_USIZE> {
                     };
                     match concurrency_limit {
                         1 => stream.for_each(item_processor).await,     // faster in `futures 0.3` -- may be useless in the future
-                        _ => stream.for_each_concurrent(concurrency_limit as usize, item_processor).await,
+                        _ => stream.map(item_processor).buffer_unordered(concurrency_limit as usize).for_each(|_| future::ready(())).await,     // keeps `stream` alive (so it still counts as running for `close()`) until every in-flight item future completes -- `for_each_concurrent()` drops it as soon as it ends
                     }
                     on_executor_end!(self_ref, true, true, Duration::ZERO, Self::INSTRUMENTS);
                     stream_ended_callback(self).await;
@@ -389,7 +389,7 @@ StreamExecutor<INSTRUMENTS_USIZE> {
                     };
                     match concurrency_limit {
                         1 => stream.for_each(item_processor).await,     // faster in `futures 0.3` -- may be useless in other versions
-                        _ => stream.for_each_concurrent(concurrency_limit as usize, item_processor).await,
+                        _ => stream.map(item_processor).buffer_unordered(concurrency_limit as usize).for_each(|_| future::ready(())).await,     // see the comment in `spawn_executor()`
                     }
                     on_executor_end!(self_ref, true, true, self_ref.futures_timeout, Self::INSTRUMENTS);
                     stream_ended_callback(self).await;
@@ -434,7 +434,7 @@ StreamExecutor<INSTRUMENTS_USIZE> {
                     };
                     match concurrency_limit {
                         1 => stream.for_each(item_processor).await,     // faster in `futures 0.3` -- may be useless in the future
-                        _ => stream.for_each_concurrent(concurrency_limit as usize, item_processor).await,
+                        _ => stream.map(item_processor).buffer_unordered(concurrency_limit as usize).for_each(|_| future::ready(())).await,     // see the comment in `spawn_executor()`
                     }
                     on_executor_end!(self_ref, true, true, Duration::ZERO, Self::INSTRUMENTS);
                     stream_ended_callback(self).await;
@@ -477,7 +477,7 @@ StreamExecutor<INSTRUMENTS_USIZE> {
                     };
                     match concurrency_limit {
                         1 => stream.for_each(item_processor).await,     // faster in `futures 0.3` -- may be useless in other versions
-                        _ => stream.for_each_concurrent(concurrency_limit as usize, item_processor).await,
+                        _ => stream.map(item_processor).buffer_unordered(concurrency_limit as usize).for_each(|_| future::ready(())).await,     // see the comment in `spawn_executor()`
                     }
                     on_executor_end!(self_ref, true, true, self_ref.futures_timeout, Self::INSTRUMENTS);     // notice the `fallible = true` here -- this is due to the timeouts, that shows as errors
                     stream_ended_callback(self).await;
